@@ -10,6 +10,7 @@ import (
 	"sort"
 	"strings"
 	"sync"
+	"sync/atomic"
 	"testing"
 	"time"
 
@@ -88,6 +89,19 @@ func feed(t *testing.T, run *ev.Run, h *history, rc repCfg, stream uint64, concu
 	var log []string
 	stop := make(chan struct{})
 	var wg sync.WaitGroup
+	if concurrentFlush && strings.Contains(rc.name, "failing-flushes") {
+		// a disk that refuses every third batch after a short while: the node logs
+		// the error and tries again later; nothing of its state may change meanwhile
+		var n atomic.Int64
+		rep.Store.Fail = func() bool {
+			if n.Add(1)%3 != 0 {
+				return false
+			}
+			time.Sleep(12 * time.Millisecond) // blocks are accepted during the failing write
+			run.Obs("flushes_refused_by_the_disk", 1)
+			return true
+		}
+	}
 	if concurrentFlush {
 		wg.Add(1)
 		go func() {
@@ -275,6 +289,8 @@ func TestCheck(t *testing.T) {
 				}, "k", "none", true},
 				{"level-gc-concurrent", "level", func(c *config.Blockchain) { c.RemoveUntraceableBlocks = true; c.GarbageCollectionPeriod = 3 }, "k", "none", false},
 				{"level-latest-concurrent", "level", func(c *config.Blockchain) { c.KeepOnlyLatestState = true }, "k", "none", true},
+				{"mem-archive-failing-flushes-concurrent", "mem", func(c *config.Blockchain) {}, "k", "none", false},
+				{"level-gc-failing-flushes-concurrent", "level", func(c *config.Blockchain) { c.RemoveUntraceableBlocks = true; c.GarbageCollectionPeriod = 3 }, "k", "none", true},
 			}
 		}
 		var wg sync.WaitGroup
